@@ -1,7 +1,8 @@
 ID = "C14"
 LEVEL = "other"
 CONTRACT_MODULES = ["contracts.table_rect"]
-FUNCTIONS = ["Table._select_rows", "Table._select_cols", "Table._copy", "Table.__mul__", "Table.__add__", "Table._append_row@rect", "Table._concatenate_table@rect"]
+FUNCTIONS = ["Table._select_rows", "Table._select_cols", "Table._copy", "Table.__mul__", "Table.__add__", "Table._append_row@rect", "Table._concatenate_table@rect",
+             "Table.__getitem__@string-argument", "Table.__getitem__@column-of-a-cell-access"]
 RAC = "rac/c14.py"
 RAC_BUDGET = {"quick": 60, "thorough": 600}
 RAC_MIN = {"quick": 2553, "thorough": 2553}      # fewer run-time evaluations than this = the harness skipped its work: checker broken, not "held"
@@ -21,7 +22,9 @@ ASSUMPTIONS = ["_append_row / _concatenate_table: no claim when a column is miss
                "requested column names are distinct and are columns or expressions, not scalar entries"]
 BOUNDED = ["the module-level concatenate, transposition, _select (expression fallback with row views), the checked constructor's rejections, "
            "element-wise evaluation of column expressions: run-time only (all derivation chains of length <= 2 on tables of 0..4 rows)"]
-EXPLANATION = ("proved for t * num (__mul__: every listed column of a copy repeated num times), t1 + t2 (__add__: a copy of t1 concatenated in "
+EXPLANATION = ("proved: t['text'] and the column of t['text', row] resolve alike -- the stored entry if there is one, else the text evaluated with the "
+               "math functions as globals and the table's entries as LOCALS (a column named like a function means the column); "
+               "proved for t * num (__mul__: every listed column of a copy repeated num times), t1 + t2 (__add__: a copy of t1 concatenated in "
                "place with t2, empty frame on both operands), _concatenate_table and _append_row (Rect with len1 + len2 / len + 1 rows, "
                "same column list; tables with the same columns as sets), and for "
                "_select_rows (behind rows[...], head, tail, reverse, unary minus), _select_cols (behind cols[...]) and _copy: "
